@@ -183,8 +183,11 @@ public:
         auto &s = Sched::get();
         vt->id = (int) s.threads.size();
         vt->reason = R_START;
-        vt->fn = [fn = std::decay_t<F>(std::forward<F>(f)), tup = std::make_tuple(std::decay_t<A>(std::forward<A>(a))...)]() mutable {
-            std::apply(std::move(fn), std::move(tup));
+        // decay-copied in the creating thread, invoked and destroyed on the new one, move-only callables allowed (as std::thread)
+        auto state = std::make_shared<std::tuple<std::decay_t<F>, std::decay_t<A>...>>(std::forward<F>(f), std::forward<A>(a)...);
+        vt->fn = [state]() mutable {
+            std::apply([](auto &fn, auto &...args) { std::invoke(std::move(fn), std::move(args)...); }, *state);
+            state.reset();
         };
         s.threads.push_back(vt);
         VThread *v = vt;
